@@ -107,11 +107,19 @@ def syntax_faults(r, text):
     # stray tokens between elements: at start, between elements, at end
     tops = [i for i, l in enumerate(lines) if re.match(r'^(table|enum|ref|tablegroup|project|note)\b', l.strip(), flags=re.I)
             and not l.startswith((' ', '\t'))]
-    for junk in ['@@@', '}', ']', ')', 'garbage here', '= 1', '"unterminated', "'unterminated", ';', '$x']:
+    for junk in ['@@@', '}', ']', ')', 'garbage here', '= 1', '"unterminated', "'unterminated", ';', '$x',
+                 '\x0c', '\x0b', '\x1c', '\x85', '\u2028', '\u2029']:
         pos = r.choice([0, len(lines)] + tops) if tops else 0
         # only at positions that are between top-level elements: the start of a top-level line or the end
         l2 = lines[:pos] + [junk] + lines[pos:]
         yield 'stray token between elements: %r' % junk, '\n'.join(l2)
+    col_like = re.compile(r'^  [A-Za-z_0-9]+\s+[a-z]+(\s*\[[^\]\'"`/]*\])?\s*$')      # `  name type [plain settings]`, nothing quoted, no comment
+    body = [i for i, l in enumerate(lines[:-1]) if col_like.match(l) and col_like.match(lines[i + 1])
+            and '\n'.join(lines[:i]).count("'''") % 2 == 0]          # not inside a multi-line string
+    if body:
+        i = r.choice(body)
+        sep = r.choice(['\x0c', '\u2028', '\x85', '\x1d'])
+        yield 'line separator %r instead of a newline' % sep, '\n'.join(lines[:i]) + '\n' + lines[i] + sep + lines[i + 1].lstrip() + '\n' + '\n'.join(lines[i + 2:])
     yield 'trailing garbage', text + '\n@garbage'
     yield 'leading garbage', '@garbage\n' + text
     # unknown setting / index type / operator / action / malformed colour inside the document
@@ -145,6 +153,11 @@ def syntax_faults(r, text):
     if ms:
         i = r.choice(ms)
         yield 'property line in a table body', '\n'.join(lines[:i + 1] + ["  colour: 'red'"] + lines[i + 1:])
+    # a one-line string whose closing quote is escaped is unterminated
+    ms = [m for m in re.finditer(r"(?<=: )'[A-Za-z0-9 ]+'(?=[^'\n]*$)", text, flags=re.M)]
+    if ms:
+        m = r.choice(ms)
+        yield 'unterminated string (closing quote escaped)', text[:m.end() - 1] + "\\'" + text[m.end():]
     # missing closing brace of the last element / extra opening brace
     idx = text.rfind('}')
     if idx >= 0:
@@ -201,6 +214,22 @@ def rule_violations(r, A):
         B['refs'].append({'kind': '>', 't1': (t['schema'], t['name']), 'cols1': [safe_col(t)], 't2': ('public', 'no_such_table'),
                           'cols2': ['id'], 'form': r.choice(['short', 'long', 'inline']), 'name': None, 'on_update': None, 'on_delete': None, 'comment': None})
         yield 'reference to a missing table', OWN + 'TableNotFoundError', B
+        # the name exists, but only in ANOTHER schema (and is nobody's alias): still a missing table
+        keys = set()
+        for x in A['tables']:
+            keys.add(x['schema'] + '.' + x['name'])
+            if x['alias']:
+                keys.add(x['alias'])
+        cands = [x for x in A['tables'] if x['schema'] != 'public' and safe_col(x) and docgen.BARE.match(x['name'])
+                 and ('public.' + x['name']) not in keys and x['name'] not in keys]
+        if cands:
+            B = copy.deepcopy(A)
+            tgt = r.choice(cands)
+            t = r.choice([x for x in B['tables'] if safe_col(x)])
+            wrong = r.choice(['public'] + [sc for sc in docgen.SCHEMAS if sc != tgt['schema'] and (sc + '.' + tgt['name']) not in keys])
+            B['refs'].append({'kind': '>', 't1': (t['schema'], t['name']), 'cols1': [safe_col(t)], 't2': (wrong, tgt['name']),
+                              'cols2': [safe_col(tgt)], 'form': r.choice(['short', 'long', 'inline']), 'name': None, 'on_update': None, 'on_delete': None, 'comment': None})
+            yield 'reference to a table name that exists only in another schema', OWN + 'TableNotFoundError', B
         B = copy.deepcopy(A)
         t = r.choice([x for x in B['tables'] if safe_col(x)])
         B['refs'].append({'kind': '<', 't1': (t['schema'], t['name']), 'cols1': [safe_col(t)], 't2': (t['schema'], t['name']),
@@ -465,6 +494,17 @@ def run(v, tier, st, pr, pid):
             for kind, bad in syntax_faults(r, text):
                 cases.append((kind, bad))
                 add_job(bad, False, kind, renders=False)
+        # characters that str.splitlines() takes for line ends are not line ends of the grammar: where a newline is
+        # required they are stray tokens
+        for sep in ['\x0b', '\x0c', '\x1c', '\x1d', '\x1e', '\x85', '\u2028', '\u2029']:
+            for bad in ['Table users {\n  id int [pk]' + sep + 'name varchar\n}\n',
+                        'Enum e {\n  a' + sep + 'b\n}\n',
+                        'Table a {\n  id int\n}' + sep + 'Table b {\n  id int\n}\n',
+                        sep + 'Table a {\n  id int\n}\n',
+                        'Table a {\n  id int\n}\n' + sep,
+                        'Table a {\n  id int [pk,' + sep + 'unique]\n}\n']:
+                cases.append(('line separator %r where a newline or blank is required' % sep, bad))
+                add_job(bad, False, 'separator', renders=False)
         outs = pool_map(parse_impl_job, [(t, False) for _, t in cases])
         byk = {}
         for (kind, text), o in zip(cases, outs):
@@ -514,6 +554,12 @@ def run(v, tier, st, pr, pid):
                     text = tmpl % s
                 cases.append(text)
                 add_job(text, False, 'short')
+        for s in all_strings(['a', ' ', '\x0c', '\x0b', '\u2028', '\x85', '\t', '.'], 2):
+            for tmpl in ['Project "%s" {\n}', 'Table t {\n id int\n}\nTableGroup "%s" {\n t\n}', 'Table "%s" {\n id int\n}', "Note n {\n '%s'\n}",
+                         'Enum "%s" {\n "%s"\n}', 'Table t {\n id int [note: \'%s\']\n}']:
+                text = tmpl.replace('%s', s)
+                cases.append(text)
+                add_job(text, False, 'short-sep')
         # regression corpus: witnesses of every defect ever found for this property
         for text in ['Project "a\\nb" {\n}', 'TableGroup "a\\nb" {\n}', 'Table t {\n id int\n}\nTableGroup "g\\tx" {\n t\n}',
                      "Table t {\n id int [note: '  ']\n}", 'Table t {\n id "a.b.c"\n}', "Note n {\n'''\n\n'''\n}",
@@ -566,6 +612,17 @@ def run(v, tier, st, pr, pid):
             for f in o:
                 fails.append({'cause': 'oracle', 'clause': f[0], 'detail': f[1], 'input': {'kind': 'document', 'text_hex': hexs(tc), 'text': tc, 'without_comments': tn}})
         stats['comment_pairs'] = len(cases)
+        # the same holds when the file has CRLF line endings: whatever a comment contains (line-boundary characters other
+        # than LF included) it ends at the end of its line and nothing of it is parsed as an element
+        crlf = [(tc, tn) for tc, _, tn, _ in cases if "'''" not in tc and '\r' not in tc][:150]
+        crlf += [('Table users {\n  id int // was:\u2028login varchar [not null]\n}\n', 'Table users {\n  id int\n}\n'),
+                 ('Table users {\n  id int\n}\n// formerly\x0cRef legacy: users.id - users.id\n', 'Table users {\n  id int\n}\n')]
+        outs2 = pool_map(c14_crlf_job, crlf)
+        for (tc, tn), o in zip(crlf, outs2):
+            if o is not None:
+                fails.append({'cause': 'oracle', 'clause': 'with CRLF line endings, adding comments changes the elements of the parsed database', 'detail': o,
+                              'input': {'kind': 'document', 'text_hex': hexs(tc.replace('\n', '\r\n')), 'text': tc.replace('\n', '\r\n'), 'without_comments': tn}})
+        stats['crlf_comment_pairs'] = len(crlf)
     elif pid == 'C15':
         cases = []
         for _ in range(600 * n):
@@ -711,6 +768,22 @@ def parse_route(text, allow, route):
         return 'raise', pyscript.exc_name(e)
 
 
+def c14_crlf_job(job):
+    tc, tn = job
+
+    def struct(db):
+        return ([(t.schema, t.name, [c.name for c in t.columns], len(t.indexes)) for t in db.tables], len(db.refs),
+                [(e.schema, e.name, [i.name for i in e.items]) for e in db.enums], [g.name for g in db.table_groups], len(db.sticky_notes))
+    ka, da = parse_impl(tc.replace('\n', '\r\n'), False)
+    kb, db_ = parse_impl(tn.replace('\n', '\r\n'), False)
+    if ka != kb:
+        return 'with comments: %s, without: %s' % (ka if ka == 'ok' else da, kb if kb == 'ok' else db_)
+    if ka != 'ok':
+        return None
+    a, b = struct(da), struct(db_)
+    return None if a == b else '%r vs %r' % (a, b)
+
+
 def c15_job(job):
     text, exp, has_props, text2, exp2 = job
     fails = []
@@ -745,6 +818,7 @@ def c15_job(job):
         # single-line values without backslash or three quotes)
         holders = list(db.tables) + [c for t in db.tables for c in t.columns]
         dom = all('\n' not in v and '\\' not in v and "'''" not in v and docgen.BARE.match(k_)      # D8: keys are rendered bare
+                  and not any(ch_ in v for ch_ in '\x0b\x0c\x1c\x1d\x1e\x85\u2028\u2029')       # D38
                   for h_ in holders for k_, v in h_.properties.items())
         if has_props and dom:
             k4, db4 = parse_impl(on, True)
